@@ -221,14 +221,30 @@ struct Interp
             }
             a.push_back((x == y && x == z) ? x : '?');
         }
-        std::string f = walk(v.begin(), v.end());
-        if (f != walk(cv.begin(), cv.end()) || f != walk(v.cbegin(), v.cend())) f = "?fwd";
-        std::string r = walk(v.rbegin(), v.rend());
-        if (r != walk(cv.rbegin(), cv.rend()) || r != walk(v.crbegin(), v.crend())) r = "?rev";
-        else if (r != walk_range(nitro::lang::reverse(v)) || r != walk_range(nitro::lang::reverse(cv))) r = "?reverse";
-        if constexpr (COPY)
+        // the iterator pairs must span exactly size elements before anything is dereferenced (a range that does not
+        // is reported as such instead of being walked out of the storage)
+        auto dist = static_cast<std::ptrdiff_t>(s);
+        std::string f, r;
+        if (std::distance(v.begin(), v.end()) != dist || std::distance(cv.begin(), cv.end()) != dist ||
+            std::distance(v.cbegin(), v.cend()) != dist)
+            f = "?fwd-range";
+        else
         {
-            if (r[0] != '?' && r != walk_range(nitro::lang::reverse(FV(cv)))) r = "?reverse-rvalue";
+            f = walk(v.begin(), v.end());
+            if (f != walk(cv.begin(), cv.end()) || f != walk(v.cbegin(), v.cend())) f = "?fwd";
+        }
+        if (std::distance(v.rbegin(), v.rend()) != dist || std::distance(cv.rbegin(), cv.rend()) != dist ||
+            std::distance(v.crbegin(), v.crend()) != dist)
+            r = "?rev-range";
+        else
+        {
+            r = walk(v.rbegin(), v.rend());
+            if (r != walk(cv.rbegin(), cv.rend()) || r != walk(v.crbegin(), v.crend())) r = "?rev";
+            else if (r != walk_range(nitro::lang::reverse(v)) || r != walk_range(nitro::lang::reverse(cv))) r = "?reverse";
+            if constexpr (COPY)
+            {
+                if (r[0] != '?' && r != walk_range(nitro::lang::reverse(FV(cv)))) r = "?reverse-rvalue";
+            }
         }
         if (s > 0)
         {
